@@ -103,6 +103,7 @@ type sqlGen struct {
 	intEnumVals, strEnumVals    []string
 	payloads                    []*Decl
 	dateType                    *Decl
+	tableHint                   string
 }
 
 type sqlTable struct {
@@ -194,7 +195,14 @@ func (g *sqlGen) makeSupport() {
 
 	g.strEnum = g.addDecl(&Decl{Name: g.fresh("Mode"), Kind: DEnum, Under: Basic("string")}, "models.go")
 	sblk := &ConstBlock{Grouped: true}
-	for i, v := range []string{"draft", "live", "gone"}[:2+g.r.Intn(2)] {
+	strVals := []string{"draft", "live", "gone"}
+	if g.pr(0.5) {
+		// values spelled like table structs of the file (whole words for the table name replacer)
+		strVals = []string{sqlTableStems[g.r.Intn(6)], "live", sqlTableStems[6+g.r.Intn(6)]}
+		g.tableHint = strVals[0] // the first table takes exactly this name
+		g.p.Feature("sql:string-enum-value-like-table-name")
+	}
+	for i, v := range strVals[:2+g.r.Intn(2)] {
 		sblk.Specs = append(sblk.Specs, &Const{Names: []string{g.fresh(fmt.Sprintf("%s%c", g.strEnum.Name, 'X'+i))}, Type: true, Value: fmt.Sprintf("%q", v)})
 		g.strEnumVals = append(g.strEnumVals, "'"+v+"'")
 	}
@@ -499,6 +507,9 @@ func (g *sqlGen) makePrimaryTable(i int) {
 	if g.pr(0.3) {
 		stem += g.pick("Tag", "Entry", "Log", "Part") // multi-word names: snake case with underscore
 	}
+	if i == 0 && g.tableHint != "" {
+		stem = g.tableHint
+	}
 	t := g.newTable(stem, false)
 	d := t.decl
 	// id field
@@ -564,12 +575,17 @@ func (g *sqlGen) makePrimaryTable(i int) {
 		} else {
 			c.EnumVals = g.strEnumVals
 		}
-		cols = append(cols, colSpec{field: f, col: c})
+		if g.pr(0.5) {
+			cols = append([]colSpec{{field: f, col: c}}, cols...) // guard declared before every other field (and the id)
+			g.p.Feature("sql:guard-first")
+		} else {
+			cols = append(cols, colSpec{field: f, col: c})
+		}
 		g.p.Feature("sql:guard")
 	}
 	// position of the id: first or not
 	pos := 0
-	if g.pr(0.4) && len(cols) > 0 {
+	if (g.pr(0.4) || (len(cols) > 0 && cols[0].col.Guard != "" && g.pr(0.7))) && len(cols) > 0 {
 		pos = 1 + g.r.Intn(len(cols))
 		g.p.Feature("sql:id-not-first")
 	}
@@ -793,6 +809,9 @@ func (g *sqlGen) addDirectives() {
 		if g.pr(0.35) {
 			c := pickCol()
 			idx := fmt.Sprintf("%sIndex_%s%d", tr.Struct, strings.ToLower(tr.Struct), ti) // contains the struct name as a substring only
+			if g.pr(0.5) {
+				idx = fmt.Sprintf("idx_%s_%d", tr.Struct, ti) // one word for the replacer: underscores are word characters
+			}
 			add(SQLDirective{Kind: "free-standing-index", Raw: fmt.Sprintf("CREATE INDEX %s ON %s (%s)", idx, tr.Struct, c.Field),
 				Expected: fmt.Sprintf("CREATE INDEX %s ON %s (%s);", idx, tr.SQLName, c.Field)})
 		}
@@ -813,15 +832,36 @@ func (g *sqlGen) addDirectives() {
 				g.p.Feature("directive:query-distinct-placeholders")
 			}
 		}
-		if g.pr(0.35) && len(cols) >= 2 {
+		if g.pr(0.5) && len(cols) >= 2 {
 			// repeated placeholder: equal names share a number and one Go argument
 			a, b := cols[0], cols[len(cols)-1]
+			for i := range cols {
+				for j := i + 1; j < len(cols); j++ {
+					if cols[i].GoType == cols[j].GoType && a.GoType != b.GoType {
+						a, b = cols[i], cols[j]
+					}
+				}
+			}
 			if a.GoType == b.GoType && a.Field != b.Field {
 				fn := g.fresh("Touch" + tr.Struct)
 				q := SQLQuery{Func: fn,
 					Raw:      fmt.Sprintf("%s DELETE FROM %s WHERE %s = $v$ OR %s = $v$ ;", fn, tr.Struct, a.Field, b.Field),
 					Expected: fmt.Sprintf("DELETE FROM %s WHERE %s = $1 OR %s = $1 ;", tr.SQLName, a.Field, b.Field),
 					ArgNames: []string{"v"}, ArgTypes: []string{a.GoType}, Fields: []string{a.Field}, Execable: false}
+				var third *SQLColumn
+				for i := range cols {
+					if cols[i].Field != a.Field && cols[i].Field != b.Field {
+						third = &cols[i]
+					}
+				}
+				if third != nil && g.pr(0.7) {
+					// ... followed by a new distinct name: numbering must continue at 2
+					c := *third
+					q.Raw = fmt.Sprintf("%s DELETE FROM %s WHERE (%s = $v$ OR %s = $v$) AND %s = $w$ ;", fn, tr.Struct, a.Field, b.Field, c.Field)
+					q.Expected = fmt.Sprintf("DELETE FROM %s WHERE (%s = $1 OR %s = $1) AND %s = $2 ;", tr.SQLName, a.Field, b.Field, c.Field)
+					q.ArgNames, q.ArgTypes, q.Fields = []string{"v", "w"}, []string{a.GoType, c.GoType}, []string{a.Field, c.Field}
+					g.p.Feature("directive:query-repeated-then-new-placeholder")
+				}
 				tr.Queries = append(tr.Queries, q)
 				doc = append(doc, "gomacro:QUERY "+q.Raw)
 				g.p.Feature("directive:query-repeated-placeholder")
